@@ -278,7 +278,7 @@ func (x *extractor) readWeight(call *ssa.Call, cur ssa.Value) (int, bool, bool) 
 	if !passes {
 		return 0, false, false
 	}
-	if calleeName(cc) == nExecuteCmd {
+	if x.p.isDispatcherCall(cc) {
 		return 0, true, true // re-entering the dispatcher hands the rest of the arguments over
 	}
 	ci := x.consumeOf(callee)
@@ -993,7 +993,7 @@ func (e *symEnv) evalCall(call *ssa.Call) []*term {
 		return []*term{tOp(strings.TrimPrefix(strings.TrimPrefix(n, pkgRedis+"."), pkgProto+"."), e.evalArgs(cc.Args)...)}
 	}
 	if callee != nil && inFramework(callee) && callee.Blocks != nil {
-		if n == nExecuteCmd && len(cc.Args) >= 4 {
+		if e.p.isDispatcherCall(cc) && len(cc.Args) >= 4 {
 			name := e.eval(cc.Args[2])
 			rest := e.eval(cc.Args[3])
 			e.x.nresult++
@@ -1186,7 +1186,7 @@ func (e *symEnv) evalEffects() {
 				continue
 			}
 			if callee := staticCallee(cc); callee != nil && inFramework(callee) {
-				if calleeName(cc) == nExecuteCmd || handlerCalls(e.p, callee, e.x.execBy, memo, 0).Max > 0 {
+				if e.p.isDispatcherCall(cc) || handlerCalls(e.p, callee, e.x.execBy, memo, 0).Max > 0 {
 					e.evalTuple(call)
 				}
 			}
